@@ -213,6 +213,10 @@ def pattern_shape():
         # whitespace control can be requested on EVERY opening delimiter, also the one of an end tag
         # inside a block-like pattern ({%- enddoc %}, {%- endraw %}): each opening placeholder in a rule
         # pattern is directly followed by an optional hyphen (the comment rules have none by design)
+        # the body of a verbatim block may be EMPTY ({% doc %}{% enddoc %}): its group is `.*?`
+        for body in ("raw", "doc", "comment"):
+            if f"(?P<{body}>" in text:
+                obs.append(flow.ob(f"{name}:the-body-of-the-block-may-be-empty", f"(?P<{body}>.*?)" in text, text[text.index(f"(?P<{body}>"):][:24], replay_schema="code", replay_extra={"code": REPLAY_OPEN_HYPHEN}))
         closes = [m_.start() for m_ in re.finditer(r"\{(tag_e|stmt_e)\}", text)]
         bare_c = [text[max(0, b - 14):b + 8] for b in closes if not (text[max(0, b - 2):b] == "-?" or re.search(r"\(\?P<\w+>-\?\)$", text[:b]))]
         obs.append(flow.ob(f"{name}:every-closing-delimiter-may-carry-a-hyphen", not bare_c, f"closing delimiters without an optional hyphen: {bare_c}", replay_schema="code", replay_extra={"code": REPLAY_OPEN_HYPHEN}))
@@ -258,7 +262,7 @@ def run(m):
     env = Environment()
     bad = []
     for src, want in (("A {% doc %}d{%- enddoc %} B {% doc %}d{% enddoc %} C", "A  B  C"), ("A {% raw %} r {%- endraw %} B", "A  r  B"), ("a {%- doc -%} x {%- enddoc -%} b", "ab"),
-                      ("A {% doc %}{{ unclosed {%- enddoc %}B", "A B"), ("A{% doc -%} {% if user %} {% enddoc %}B", "AB"), ("A {%- raw -%} {{ x }} {%- endraw -%} B", "A {{ x }} B")):
+                      ("A {% doc %}{{ unclosed {%- enddoc %}B", "A B"), ("A{% doc -%} {% if user %} {% enddoc %}B", "AB"), ("A{% doc %}{% enddoc %}B{% doc %}x{% enddoc %}C", "ABC"), ("a {% comment %}{% endcomment -%} b", "a b"), ("a {% comment -%}{% endcomment %} b", "a  b"), ("A {%- raw -%} {{ x }} {%- endraw -%} B", "A {{ x }} B")):
         try:
             got = env.from_string(src).render()
         except Exception as e:
